@@ -30,8 +30,8 @@ def main():
         checks.append(
             {
                 "property_id": pid,
-                "quick_cmd": f"/venv/bin/python -m sa.check {pid} --tier quick",
-                "thorough_cmd": f"/venv/bin/python -m sa.check {pid} --tier thorough",
+                "quick_cmd": f"PYTHONHASHSEED=0 /venv/bin/python -m sa.check {pid} --tier quick",
+                "thorough_cmd": f"PYTHONHASHSEED=0 /venv/bin/python -m sa.check {pid} --tier thorough",
                 "evidence_file": f"/verif/evidence/{pid}.json",
                 "replay_cmd_template": "/venv/bin/python -m sa.check --replay {path}",
                 "engine": "sa",
